@@ -121,7 +121,10 @@ def sim_plan_st(draw, tier, ctx=None, want_absent_arms=False, max_bandits=3):
     batch_size = draw(st.integers(1, n_test)) if online else 0
     if big and online:
         batch_size = draw(st.sampled_from([x for x in (101, 120, 150, 200, 64, 100) if x <= n_test]))
-    return {"arms": arms, "bandits": bandits, "decisions": decisions, "rewards": rewards, "contexts": contexts,
+    scaler = None
+    if contexts is not None and draw(st.integers(0, 5)) == 0:
+        scaler = draw(st.sampled_from(["standard", "minmax"]))   # the Simulator's own scaler argument
+    return {"scaler": scaler, "arms": arms, "bandits": bandits, "decisions": decisions, "rewards": rewards, "contexts": contexts,
             "test_size": test_size, "n_test": n_test, "exact_count": exact_count, "is_ordered": draw(st.booleans()), "batch_size": batch_size,
             "is_quick": draw(st.booleans()), "seed": draw(st.integers(0, 2 ** 16)),
             "data_container": draw(st.sampled_from(["list", "ndarray"]))}
@@ -129,6 +132,16 @@ def sim_plan_st(draw, tier, ctx=None, want_absent_arms=False, max_bandits=3):
 
 def build_bandits(plan):
     return [(b["name"], ops.build(b["config"])) for b in plan["bandits"]]
+
+
+def make_scaler(plan):
+    if plan.get("scaler") == "standard":
+        from sklearn.preprocessing import StandardScaler
+        return StandardScaler()
+    if plan.get("scaler") == "minmax":
+        from sklearn.preprocessing import MinMaxScaler
+        return MinMaxScaler()
+    return None
 
 
 def run_simulator(plan, bandits):
@@ -139,7 +152,7 @@ def run_simulator(plan, bandits):
         dec, rew = np.asarray(dec), np.asarray(rew)
         cx = np.asarray(cx) if cx is not None else None
     try:
-        sim = Simulator(bandits=list(bandits), decisions=dec, rewards=rew, contexts=cx, scaler=None,
+        sim = Simulator(bandits=list(bandits), decisions=dec, rewards=rew, contexts=cx, scaler=make_scaler(plan),
                         test_size=plan["test_size"], is_ordered=plan["is_ordered"], batch_size=plan["batch_size"],
                         seed=plan["seed"], is_quick=plan["is_quick"])
         sim.run()
@@ -173,20 +186,28 @@ def api_replay(plan, mab, with_expectation_calls):
     tr, te = split(plan)
     dec, rew, cx = plan["decisions"], plan["rewards"], plan["contexts"]
     contextual = mab.is_contextual
+    cx_te = take(cx, te)
+    cx_tr = take(cx, tr)
+    sc = make_scaler(plan)
+    if sc is not None and cx is not None:
+        # documented protocol: the scaler is fitted on the training contexts and applied to the test contexts
+        cx_tr = sc.fit_transform(np.asarray(cx)[tr])
+        cx_te = sc.transform(np.asarray(cx)[te])
     if contextual:
-        mab.fit(take(dec, tr), take(rew, tr), take(cx, tr))
+        mab.fit(take(dec, tr), take(rew, tr), cx_tr)
     else:
         mab.fit(take(dec, tr), take(rew, tr))
     preds, exps = [], []
     bs = plan["batch_size"] or len(te)
     for start in range(0, len(te), bs):
         idx = te[start:start + bs]
+        cxb = cx_te[start:start + bs] if cx_te is not None else None
         if contextual:
-            p = mab.predict(take(cx, idx))
+            p = mab.predict(cxb)
             p = p if isinstance(p, list) else [p]
             preds += [ops.py(x) for x in p]
             if with_expectation_calls:
-                e = mab.predict_expectations(take(cx, idx))
+                e = mab.predict_expectations(cxb)
                 e = e if isinstance(e, list) else [e]
                 exps += [ops.canon_expectations(x) for x in e]
         else:
@@ -199,7 +220,7 @@ def api_replay(plan, mab, with_expectation_calls):
                 exps.append(ops.canon_expectations(mab.predict_expectations()))
         if plan["batch_size"]:
             if contextual:
-                mab.partial_fit(take(dec, idx), take(rew, idx), take(cx, idx))
+                mab.partial_fit(take(dec, idx), take(rew, idx), cxb)
             else:
                 mab.partial_fit(take(dec, idx), take(rew, idx))
     return preds, (exps if with_expectation_calls else None)
